@@ -102,7 +102,7 @@ for p in props:
         "evidence_file": "/verif/evidence/%s.json" % i,
         "replay_cmd_template": "./check %s --replay {path}" % i,
         "engine": "tla-spec+tlc",
-        "level_claimed": {"category": "model_checking", "text": text, "design_ref": "DESIGN.md section " + ref},
+        "level_claimed": {"category": "model_checking", "text": text, "design_ref": "DESIGN.md section " + ref + "; as built: 10.2; later additions: 11.1"},
         "level_note": TRUST,
         "technique": tech,
     })
